@@ -64,8 +64,9 @@ fn one_seed(eps: f64, delta: f64, stream: Stream, bh: CtlBuildHasher, r: &mut Fa
         Stream::Adversarial | Stream::AdversarialAfterClear => {
             if stream == Stream::AdversarialAfterClear {
                 // previous life of the sketch: a dense unrelated stream, then clear()
-                for i in 0..3000u64 {
-                    c.add_n(&key(2_000_000 + i), &(1 + i % 7));
+                // heavy enough that every cell it touched stays far above eps*N of the second life
+                for i in 0..20_000u64 {
+                    c.add_n(&key(2_000_000 + i), &(1_000_000_000 + i % 7));
                 }
                 c.clear();
             }
